@@ -289,7 +289,8 @@ Inductive op :=
 | OLens (v : nat)                                             (* length, byteLength, byteOffset *)
 | OIncludes (v : nat) (x : sval) (from : option iarg)         (* V[v].includes(x, from) *)
 | OIndexOf (v : nat) (x : sval) (from : option iarg)
-| OLastIndexOf (v : nat) (x : sval) (from : option iarg).
+| OLastIndexOf (v : nat) (x : sval) (from : option iarg)
+| OCtorFrom (k : kind) (sv : nat).                            (* new T(V[sv]): a new array on a new buffer *)
 
 Definition out := (state * res * list touch)%type.
 Definition fail (st : state) (e : err) (t : list touch) : out := (st, RErr e, t).
@@ -714,6 +715,26 @@ Definition op_lastindexof (m : mode) (st : state) (v : nat) (x : sval) (from : o
     | None => (st1, ridx (-1), [tch st1 (v_buf vw) (addr m vw 0) ((k + 1) * esize (v_kind vw))])
     end).
 
+(* --- new T(typedArray): InitializeTypedArrayFromTypedArray / _newTypedArrayFromTypedArray.
+       Same element type: the bytes are cloned; otherwise every element is converted (the content
+       types must agree).  The result lives on a fresh buffer, so there is no overlap. *)
+Definition conv_chunk (m : mode) (k : kind) (e : elt) : list N :=
+  match num_to_raw m k true (pv_of_elt e) with
+  | Some bs => bs
+  | None => repeat 0%N (nbytes k)
+  end.
+Definition op_ctorfrom (m : mode) (st : state) (k : kind) (sv : nat) : out :=
+  with_view st sv (fun src =>
+    if is_det st (v_buf src) then fail st TypeError [] else
+    if negb (Bool.eqb (is_big (v_kind src)) (is_big k)) then fail st TypeError [] else
+    let n := v_len src in
+    let ss := esize (v_kind src) in
+    let nb := length (bufs st) in
+    let bs := if kind_eqb (v_kind src) k then rd_buf st (v_buf src) (addr m src 0) (n * ss)
+              else concat (map (fun i => conv_chunk m k (fst (get_elt m st src i))) (seqZ 0 (Z.to_nat n))) in
+    (mkSt (bufs st ++ [mkBuf bs false]) (views st ++ [mkView nb 0 n k]) (dviews st), RNewView n,
+     if n >? 0 then [tch st (v_buf src) (addr m src 0) (n * ss); mkT nb 0 (n * esize k) true] else [])).
+
 Definition op_lens (st : state) (v : nat) : out :=
   with_view st v (fun vw =>
     if is_det st (v_buf vw) then (st, RLens 0 0 0, [])
@@ -742,6 +763,7 @@ Definition step (m : mode) (st : state) (o : op) : out :=
   | OIncludes v x from => op_search_fwd true m st v x from
   | OIndexOf v x from => op_search_fwd false m st v x from
   | OLastIndexOf v x from => op_lastindexof m st v x from
+  | OCtorFrom k sv => op_ctorfrom m st k sv
   end.
 
 (* the byte regions an operation is entitled to touch, as (buffer, lo, hi):
@@ -763,12 +785,19 @@ Definition new_region (st : state) (v : nat) : list (nat * Z * Z) :=
   | Some vw => [(length (bufs st), 0, v_len vw * esize (v_kind vw))]
   | None => []
   end.
+(* a buffer created by new T(typedArray): length(source) elements of kind k *)
+Definition new_region_k (st : state) (k : kind) (v : nat) : list (nat * Z * Z) :=
+  match nth_error (views st) v with
+  | Some vw => [(length (bufs st), 0, v_len vw * esize k)]
+  | None => []
+  end.
 Definition allowed (st : state) (o : op) : list (nat * Z * Z) :=
   match o with
   | OGet v _ | OSet v _ _ | OSetArr v _ _ | OCopyWithin v _ _ _ | OFill v _ _ _ | OReverse v | OSort v
   | OLens v | OSubarray v _ _ | OIncludes v _ _ | OIndexOf v _ _ | OLastIndexOf v _ _ => view_region st v
   | OSetTyped v sv _ => view_region st v ++ view_region st sv
   | OSlice v _ _ => view_region st v ++ new_region st v
+  | OCtorFrom k sv => view_region st sv ++ new_region_k st k sv
   | ODvGet d _ _ _ | ODvSet d _ _ _ _ => dview_region st d
   | OBufSlice b _ _ => [(b, 0, mlen st b); (length (bufs st), 0, mlen st b)]
   | OCtor _ _ _ _ | ODvCtor _ _ _ | OGoWrite _ _ _ | ODetach _ => []
